@@ -712,8 +712,9 @@ where
                         if let BadFrameResponse::Abort(report) = failure_handler.failed_with(e) {
                             break Err(report);
                         }
-                    }
-                    if is_active {
+                        // The bad frame is ignored: there is nothing to pass on to the consumers.
+                        current.clear();
+                    } else if is_active {
                         send_current(&mut registered, &current).await;
                         if !I::SINGLE_FRAME_STATE {
                             send_current(&mut awaiting_synced, &current).await;
